@@ -12,6 +12,7 @@ mod opw;
 mod wrap;
 mod col;
 mod misc;
+mod stroke;
 mod json;
 
 pub struct Found {
@@ -68,6 +69,7 @@ fn search(prop: &str, seed: u64, obls: &[String]) -> Option<Found> {
         "C08" => opw::search("c08", seed, 60000),
         "C09" => wrap::search("c09", seed, 20000),
         "C15" => misc::search_c15(seed, 3000),
+        "C12" => stroke::search(seed, 40),
         "C17" => misc::search_c17(seed, 20000),
         "C10" => col::search("c10", seed, 300),
         "C11" => col::search("c11", seed, 150),
@@ -84,6 +86,7 @@ fn replay(prop: &str, kind: &str, case: &str) -> Option<Found> {
         "C09" | "C16" => wrap::replay(kind, case),
         "C10" | "C11" | "C14" => col::replay(kind, case),
         "C17" => misc::replay_c17(case),
+        "C12" => stroke::replay(case),
         "C15" => misc::replay_c15(case),
         _ => None,
     }
